@@ -19,13 +19,13 @@ CLAIMS = {
         "technique": "must/may forward dataflow over clang CFG (validate-before-emit), switch coverage, table-vs-database agreement",
     },
     "C03": {
-        "text": "Decides bookkeeping/ordering clauses: label ids validated on the taken edge before label entries are dereferenced; the unresolved counter is written only in its inverse-pair forms and subtracted on every exit that ran the fixup iterator; one iterator advance per iteration and release only after a successful patch; survivor splice; OffsetFormat literals satisfy the encoder's preconditions; pc-relative addends account for trailing immediates and use the writer cursor; a label relocation takes offset and section from the same label entry; the displacement codec never narrows a 64-bit displacement without a range or round-trip test. Does not decide displacement values.",
+        "text": "Decides bookkeeping/ordering clauses: label ids validated on the taken edge before label entries are dereferenced; the unresolved counter is written only in its inverse-pair forms and subtracted on every exit that ran the fixup iterator; one iterator advance per iteration and release only after a successful patch; survivor splice; OffsetFormat literals satisfy the encoder's preconditions; pc-relative addends account for trailing immediates and use the writer cursor; a label relocation takes offset and section from the same label entry; the displacement codec never narrows a 64-bit displacement without a range or round-trip test.; a reference from another section takes its target section from the label; a fixup list is attached to a label entry only on the edge where it is not bound; bind_label resolves fix-ups against the bound section Does not decide displacement values.",
         "design_ref": "DESIGN.md section 3 / C03",
         "note": _TB,
         "technique": "dominance / must-pass-through dataflow on CFG, inverse-pair structural rule, constant-argument checks",
     },
     "C04": {
-        "text": "Decides: RelocType/expression dispatch is complete and defaults to an error; every buffer write of relocate_to_base is dominated by its range/null tests; the .addrtab rewrite recognises exactly call/jmp rel32 and replaces them with FF /2, FF /4 (also against the ISA database); relocation entries are completely initialised with section ids of the right provenance; pc-relative displacements account for trailing immediates; payload and target section come from one label entry, a stored payload is read before it is overwritten, every address-after-field sum in relocate_to_base contains section offset and source offset. Does not decide relocation arithmetic.",
+        "text": "Decides: RelocType/expression dispatch is complete and defaults to an error; every buffer write of relocate_to_base is dominated by its range/null tests; the .addrtab rewrite recognises exactly call/jmp rel32 and replaces them with FF /2, FF /4 (also against the ISA database); relocation entries are completely initialised with section ids of the right provenance; pc-relative displacements account for trailing immediates; payload and target section come from one label entry, a stored payload is read before it is overwritten, every address-after-field sum in relocate_to_base contains section offset and source offset.; JitRuntime relocates to the executable address; bytes stored into reserved buffer capacity are covered by a `_size` assignment on every path to a successful return Does not decide relocation arithmetic.",
         "design_ref": "DESIGN.md section 3 / C04",
         "note": _TB,
         "technique": "switch coverage, must-assign dataflow after new_reloc_entry, dominance of bounds tests, constant agreement with tables",
@@ -40,7 +40,7 @@ CLAIMS = {
         "technique": "AST extraction of constant setter arguments per (arch branch, convention case) compared with an ABI oracle table",
     },
     "C08": {
-        "text": "Decides capture/replay coverage: every node-creating Builder override is replayed by serialize_to and every node kind dispatched; options/extra register/comment are restored from the node before _emit, operands passed positionally and operands 3..5 refreshed per node; _emit stores everything in the node; the five list-editing functions agree on links, list ends, cursor and dirty flag. The arguments of embed_label / embed_label_delta round-trip positionally through node constructor, field and accessor; the cursor is tested once per removed node on every path; element sizes are computed from the de-abstracted type id in Builder and Assembler alike. Does not decide byte identity.",
+        "text": "Decides capture/replay coverage: every node-creating Builder override is replayed by serialize_to and every node kind dispatched; options/extra register/comment are restored from the node before _emit, operands passed positionally and operands 3..5 refreshed per node; _emit stores everything in the node; the five list-editing functions agree on links, list ends, cursor and dirty flag. The arguments of embed_label / embed_label_delta round-trip positionally through node constructor, field and accessor; the cursor is tested once per removed node on every path; element sizes are computed from the de-abstracted type id in Builder and Assembler alike. The section chain is terminated after re-linking; x86/a64 Compiler/Builder finalize forward the same emitter configuration; a node taken from a label/section/const-pool registry is linked only when known inactive or one-shot. Does not decide byte identity.",
         "design_ref": "DESIGN.md section 3 / C08",
         "note": _TB,
         "technique": "call-graph coverage, argument provenance tracing, structural pairing of link assignments",
@@ -48,14 +48,14 @@ CLAIMS = {
     "C09": {
         "text": "Decides accounting/guard/flag clauses C09.a-e: statistics updates come in inverse pairs, release/shrink/query agree on the guards "
                 "applied to a looked-up address, is_initialized distinguishes the null implementation, empty-block policy writes, roll-back in "
-                "new_block, every site that sets the empty flag rebuilds the same free-space cache fields, area/byte conversions use the pool's granularity. Does not decide disjointness/alignment over histories.",
+                "new_block, every site that sets the empty flag rebuilds the same free-space cache fields, area/byte conversions use the pool's granularity., a block that is re-inserted into the tree has its links cleared, the emptiness test follows every path that lowers the used area, the secure fill walks the used ranges, release/shrink accept only the start of a span Does not decide disjointness/alignment over histories.",
         "design_ref": "DESIGN.md section 3 / C09",
         "note": _TB,
         "technique": "inverse-pair and sibling-guard structural rules, constant evaluation, acquire/release pairing on CFG",
     },
     "C10": {
         "text": "Decides clauses C10.a-c: every write into the caller's buffer is bounded by dst_size, sections are inserted at a lower_bound over "
-                "(order, id), flatten's overflow exits precede any offset assignment. Layout walks iterate the layout order; Section::real_size() folds to max(virtual, buffer) on a value grid. Does not decide layout arithmetic.",
+                "(order, id), flatten's overflow exits precede any offset assignment. Layout walks iterate the layout order; Section::real_size() folds to max(virtual, buffer) on a value grid. flatten advances by the real size; the address table's written slots are covered by its buffer size on every successful path of relocate_to_base. Does not decide layout arithmetic.",
         "design_ref": "DESIGN.md section 3 / C10",
         "note": _TB,
         "technique": "dominance of bounds tests over memcpy/memset sinks, structural comparator match, CFG reachability",
@@ -83,7 +83,7 @@ CLAIMS = {
         "technique": "regeneration diff, exhaustive decode of dumped name tables, CFG dominance",
     },
     "C14": {
-        "text": "Decides guard/atomicity clauses: label ids validated before dereference; AArch64 register ids validated before packing; emit functions (x86, a64, Builder) reset one-shot state on every exit, commit bytes only on success, never reach an input-validation exit after a fixup/relocation/address-table commit; the shared failure exit resets state before the handler can throw; AArch64 64-bit immediates are range-tested before narrowing and condition codes are bounded by the enum; label-count comparisons are strict; every failing return of an emitter interface function passes through report_error() (flow-sensitive), one-shot state is reset before the handler runs, a label is validated before the first commit of a multi-step function; constant-table subscripts are bounded for arbitrary operands (38 subscripts, upper-bound evaluator) and the opcode MM field stays inside its table; the CodeHolder is used only after `_code` was tested. Does not decide that every invalid operand kind is rejected, nor operand-indexed table subscripts.",
+        "text": "Decides guard/atomicity clauses: label ids validated before dereference; AArch64 register ids validated before packing; emit functions (x86, a64, Builder) reset one-shot state on every exit, commit bytes only on success, never reach an input-validation exit after a fixup/relocation/address-table commit; the shared failure exit resets state before the handler can throw; AArch64 64-bit immediates are range-tested before narrowing and condition codes are bounded by the enum; label-count comparisons are strict; every failing return of an emitter interface function passes through report_error() (flow-sensitive), one-shot state is reset before the handler runs, a label is validated before the first commit of a multi-step function; constant-table subscripts are bounded for arbitrary operands (38 subscripts, upper-bound evaluator) and the opcode MM field stays inside its table; the CodeHolder is used only after `_code` was tested.; Builder::bind and the other registry-node adders link a node only when it is known not to be part of the list Does not decide that every invalid operand kind is rejected, nor operand-indexed table subscripts.",
         "design_ref": "DESIGN.md section 3 / C14",
         "note": _TB,
         "technique": "must-set / reachability dataflow on clang CFG, sibling-guard comparison, index-range vs table-length check",
@@ -95,7 +95,7 @@ CLAIMS = {
         "technique": "null-tested must-analysis, discarded-result lint with frozen exception table, dominance, free-escape typestate",
     },
     "C16": {
-        "text": "Decides: every arena-backed container, pointer and field mutated after construction of CodeHolder, BaseEmitter, BaseAssembler, BaseBuilder, BaseCompiler, BaseRAPass and ConstPool is reset in the closure of each reset entry point, or exempt with a reason (126 obligations); array members are reset element-wise, ArenaHashBase::reset covers every field; every override of on_attach/on_detach/on_reinit calls the handler it overrides on every path; no function of the code-generation units orders object pointers by address. Does not decide byte equality of recycled vs fresh generation nor address independence.",
+        "text": "Decides: every arena-backed container, pointer and field mutated after construction of CodeHolder, BaseEmitter, BaseAssembler, BaseBuilder, BaseCompiler, BaseRAPass and ConstPool is reset in the closure of each reset entry point, or exempt with a reason (126 obligations); array members are reset element-wise, ArenaHashBase::reset covers every field; every override of on_attach/on_detach/on_reinit calls the handler it overrides on every path; no function of the code-generation units orders object pointers by address.; flag accessors of Section/RelocEntry-like records fold to set/clear/test on a value grid; a new Section is completely initialised, including all bytes of its name Does not decide byte equality of recycled vs fresh generation nor address independence.",
         "design_ref": "DESIGN.md section 3 / C16",
         "note": _TB,
         "technique": "reset-closure coverage over class fields (call graph + field writes), must-call rule, pointer-compare lint",
